@@ -21,33 +21,28 @@ Definition C20_full : Prop :=
   forall cfg k cap buf0 req fr, async_expressible fr = true ->
     observable k (async_handle cfg k cap buf0 req fr) = observable k (handle cfg k cap req fr).
 
-(* it does NOT hold of the code as it is: four defects of the async path (DESIGN.md section 4, D11, and
-   the async_commit defect found while building this check), each with a concrete witness that
-   props/c20.py replays on the real handlers *)
+(* it does NOT hold of the code as it is: async_write answers ENOMEM by itself when WriteIn.size >
+   MAX_BUFFER_SIZE, the sync write handler calls the filesystem (DESIGN.md section 4, D11; left to the
+   maintainers, a known finding).  props/c20.py replays the witness on the real handlers.  The other three
+   defects this check found (async gate answering an oversized FORGET, async gate refusing capacity < 16,
+   async_commit re-sending stale memory) were repaired in /repo (fix: 2dcabb6, 45bf06c); the model followed
+   through its translated [shape] and their former witnesses now agree (repaired_witnesses_agree). *)
 Theorem C20_refuted : ~ C20_full.
 Proof. exact full_refuted. Qed.
-
-Theorem C20_refuted_forget_oversize :
-  observable Virtio (async_handle cfg0 Virtio 4096 [] w_forget_req FUnit)
-  <> observable Virtio (handle cfg0 Virtio 4096 w_forget_req FUnit).
-Proof. exact witness_forget_oversize. Qed.
-
-Theorem C20_refuted_small_capacity :
-  observable Virtio (async_handle cfg0 Virtio 0 [] w_forget_nocap_req FUnit)
-  <> observable Virtio (handle cfg0 Virtio 0 w_forget_nocap_req FUnit).
-Proof. exact witness_small_capacity. Qed.
 
 Theorem C20_refuted_write_size :
   observable Virtio (async_handle cfg0 Virtio 4096 [] w_write_req (FCount 0))
   <> observable Virtio (handle cfg0 Virtio 4096 w_write_req (FCount 0)).
 Proof. exact witness_write_size. Qed.
 
-Theorem C20_refuted_stale_rewrite :
-  observable FuseDev (async_handle cfg0 FuseDev 4096 (repeat 165 16) w_getattr_req (FErr (Os 2)))
-  <> observable FuseDev (handle cfg0 FuseDev 4096 w_getattr_req (FErr (Os 2))).
-Proof. exact witness_stale_rewrite. Qed.
+Theorem C20_repaired_witnesses_agree :
+  async_handle cfg0 Virtio 4096 [] w_forget_req FUnit = handle cfg0 Virtio 4096 w_forget_req FUnit /\
+  async_handle cfg0 Virtio 0 [] w_forget_nocap_req FUnit = handle cfg0 Virtio 0 w_forget_nocap_req FUnit /\
+  async_handle cfg0 FuseDev 4096 (repeat 165 16) w_getattr_req (FErr (Os 2)) = handle cfg0 FuseDev 4096 w_getattr_req (FErr (Os 2)).
+Proof. exact repaired_witnesses_agree. Qed.
 
-(* outside the class of those four defects the two handlers agree -- on everything, not only observably *)
+(* outside the class of that defect ([known_class]: header parses, id remap succeeds, not oversized, opcode 16,
+   size field > MAX_BUFFER_SIZE) the two handlers agree -- on everything, not only observably *)
 Theorem C20_partial : forall cfg k cap buf0 req fr,
   async_expressible fr = true -> known_class cfg k cap req fr = false ->
   observable k (async_handle cfg k cap buf0 req fr) = observable k (handle cfg k cap req fr).
@@ -61,7 +56,8 @@ Proof. exact async_handle_eq. Qed.
 (* The model is written over a [shape]: four yes/no facts the translator reads off the source on every run
    (gate tests the capacity? gate exempts FORGET? async_write has its size gate? async_commit returns early
    on an unbuffered writer?).  [async_handle] = [async_handle_gen code_shape].  For the shape the three
-   patches of /verif/fixes/C20-*.patch produce, the defect class is empty and the full statement holds: *)
+   patches of /verif/fixes/C20-*.patch produce (two are applied; the third is the write gate), the defect class is
+   empty and the full statement holds: *)
 Theorem C20_full_after_fixes : forall cfg k cap buf0 req fr,
   async_expressible fr = true ->
   observable k (async_handle_gen fixed_shape cfg k cap buf0 req fr) = observable k (handle cfg k cap req fr).
@@ -103,13 +99,13 @@ Theorem C20_table_is_the_code :
             (sort2 (map (fun e => (fst (fst e), snd e)) Gen.RustAsyncDispatch.rust_async_dispatch)) = true.
 Proof. exact async_table_matches. Qed.
 
-(* non-vacuity: the hypotheses of C20_partial are satisfiable on ordinary requests (a GETATTR answered with
-   attributes on fusedev, a GETATTR error on virtio, a FORGET with room for a reply), and the witnesses of
-   the refutation are inside the excluded class *)
+(* non-vacuity: the hypotheses of C20_partial are satisfiable on ordinary requests (a GETATTR error on fusedev,
+   a FORGET without reply capacity, an oversized FORGET, a WRITE of exactly MAX_BUFFER_SIZE), and the witness of the
+   refutation is inside the excluded class *)
 Example C20_nonvacuous :
   async_expressible (FErr (Os 2)) = true /\
-  known_class cfg0 Virtio 4096 w_getattr_req (FErr (Os 2)) = false /\
-  known_class cfg0 Virtio 64 (hdr_bytes 48 2 7 1 ++ enc 8 1) FUnit = false /\
+  known_class cfg0 FuseDev 4096 w_getattr_req (FErr (Os 2)) = false /\
+  known_class cfg0 Virtio 0 w_forget_nocap_req FUnit = false /\
   exists p, v_mem (observable Virtio (async_handle cfg0 Virtio 4096 [] w_getattr_req (FErr (Os 2)))) = p /\ List.length p = 16%nat.
 Proof.
   split; [reflexivity|]. split; [vm_compute; reflexivity|]. split; [vm_compute; reflexivity|].
@@ -117,17 +113,13 @@ Proof.
 Qed.
 
 Example C20_witnesses_in_class :
-  known_class cfg0 Virtio 4096 w_forget_req FUnit = true /\
-  known_class cfg0 Virtio 0 w_forget_nocap_req FUnit = true /\
   known_class cfg0 Virtio 4096 w_write_req (FCount 0) = true /\
-  known_class cfg0 FuseDev 4096 w_getattr_req (FErr (Os 2)) = true.
+  known_class cfg0 FuseDev 4096 w_write_req (FErr (Os 5)) = true.
 Proof. exact witnesses_in_class. Qed.
 
 Print Assumptions C20_refuted.
-Print Assumptions C20_refuted_forget_oversize.
-Print Assumptions C20_refuted_small_capacity.
 Print Assumptions C20_refuted_write_size.
-Print Assumptions C20_refuted_stale_rewrite.
+Print Assumptions C20_repaired_witnesses_agree.
 Print Assumptions C20_partial.
 Print Assumptions C20_partial_strong.
 Print Assumptions C20_full_after_fixes.
